@@ -27,7 +27,7 @@ _ops("C06", "ReverseComplement ReverseComplementSequences ToUpper ToLower Unalig
 _ops("C16", "LongestORFObj")
 _ops("C12", "RemoveGapSites RemoveCharacterSites RemoveMajorityCharacterSites RemoveGapSeqs RemoveCharacterSeqs")
 _ops("C13", "Deduplicate Compress")
-_ops("C14", "MaxCharStats Consensus CharStats CharStatsSite CharStatsSeq UniqueCharacters Entropy NbVariableSites "
+_ops("C14", "MaxCharStats Consensus CharStats CharStatsSite CharStatsSeq UniqueCharacters Entropy EntropyAll NbVariableSites "
             "InformativeSites AvgAllelesPerSite Pssm CountDifferences NumGapsUnique NumMutationsUnique NumMutRef "
             "ListMutRef CountProfile ProfileOnly")
 _ops("C15", "Mask MaskPositions MaskOccurences MaskUnique")
@@ -37,7 +37,7 @@ _ops("C19", "Query")
 
 READ_ONLY = set("Clone CloneSeqBag Unalign Sample SampleSeqBag SubAlign Extract SelectSites InverseCoordinates InversePositions "
                 "RefCoordinates RefSites Split Transpose MaxCharStats Consensus CharStats CharStatsSite CharStatsSeq "
-                "UniqueCharacters Entropy NbVariableSites InformativeSites AvgAllelesPerSite Pssm CountDifferences "
+                "UniqueCharacters Entropy EntropyAll NbVariableSites InformativeSites AvgAllelesPerSite Pssm CountDifferences "
                 "NumGapsUnique NumMutationsUnique NumMutRef ListMutRef CountProfile ProfileOnly SiteConservation AlphabetInfo BuildBootstrap RandSubAlign Rarefy "
                 "DetectAlphabet Identical Query LongestORFObj".split())
 
